@@ -498,7 +498,8 @@ func TestC06(t *testing.T) {
 		"setf-car/nth/elt rplaca rplacd nconc nreverse sort stable-sort delete* add) with arguments and target drawn from the pool, so every aliasing pattern arises. " +
 		"Oracle = internal/reflist: value + may-share group per variable; after every step the returned value equals the reference, every variable outside the group the language allows " +
 		"to be modified prints exactly as before, defined variables have the defined value; members of the modified group are re-synchronised (don't care). " +
-		"Grids: every (creation mode x length 0..4) x every deriving operation instance x every operation instance on the original or the derived list (x every mutator instance in the triples grid). " +
+		"Grids: every (creation mode x length) x every deriving operation instance x every operation instance on the original or the derived list (pairs), x every mutator instance on any of the three lists (triples; " +
+		"quick tier: restricted operation sets and lengths 1..2, thorough: all operations, lengths 0..3, pairs up to length 4). " +
 		"Non-trivial: a step that stored a non-empty list derived from a non-empty pool list is followed by a destructive or extending step (setf rplac* nconc n* sort delete* add push append cons list*) " +
 		"while at least 2 variables outside the affected group are non-empty. Distinct by the JSON of the case.")
 	h.Assume("the reference model internal/reflist implements the Common Lisp rules for which lists may share cells (CLHS: copy-list, subseq, reverse, butlast, mapcar, append's copied arguments are fresh; cdr/nthcdr/last/member/cons/list*/append's last argument share; remove* may share; the empty list shares nothing)")
